@@ -299,16 +299,22 @@ def record(h, frames, reads):
 
 
 # ------------------------------------------------------------------ walks through a TLC state graph
-def cover_walks(edges, init):
+def cover_walks(edges, init, rank=None):
     """Walks from an initial state to a terminal state (no successor) that together traverse every edge
     reachable from `init` at least once.  Greedy: follow an untraversed edge when there is one, otherwise
-    move to the nearest state that still has one, otherwise finish along a shortest path to a terminal."""
+    move to the nearest state that still has one, otherwise finish along a shortest path to a terminal.
+    With `rank` (state id -> number) the untraversed successor of lowest rank is taken first, which gives
+    long walks of small steps (fewer walks, every edge still once)."""
     from collections import deque
     succ = {}
+    seen_e = set()
     for s, d, _ in edges:
-        succ.setdefault(s, [])
-        if d not in succ[s]:
-            succ[s].append(d)
+        if (s, d) not in seen_e:
+            seen_e.add((s, d))
+            succ.setdefault(s, []).append(d)
+    if rank is not None:
+        for s in succ:
+            succ[s].sort(key=rank, reverse=True)        # pop() takes the lowest rank
     todo = {s: list(ds) for s, ds in succ.items()}      # untraversed out-edges per state
     walks = []
     for i0 in init:
